@@ -240,10 +240,14 @@ type viewSpec struct {
 	valid   func() []byte      // a valid instance for the single byte substitution sweep
 }
 
+// viewSigma: per view alphabets for the control offsets (default sigma7). The Ether view is enumerated over the EtherType
+// bytes of IPv4, ARP, IPv6, 802.1Q and 802.1ad.
+var viewSigma = map[string][]byte{"Ether": {0x00, 0x06, 0x08, 0x81, 0x86, 0x88, 0xa8, 0xdd, 0xff}}
+
 func viewSpecs() []viewSpec {
 	ip4pkt := func() []byte { return refIP4UDP() }
 	return []viewSpec{
-		{"Ether", 14, func(b []byte) any { return packet.Ether(b) }, []int{12, 13, 0, 6}, func() []byte { return frameTemplates(false)[0].Frame }},
+		{"Ether", 14, func(b []byte) any { return packet.Ether(b) }, []int{12, 13, 0, 6}, func() []byte { return frameTemplatesByName("udp4-40000-53") }},
 		{"IP4", 20, func(b []byte) any { return packet.IP4(b) }, []int{0, 2, 3, 6, 9}, ip4pkt},
 		{"IP6", 40, func(b []byte) any { return packet.IP6(b) }, []int{0, 4, 5, 6, 7}, func() []byte { return frameTemplatesByName("udp6-40000-53")[14:] }},
 		{"UDP", 8, func(b []byte) any { return packet.UDP(b) }, []int{0, 2, 4, 5, 6}, func() []byte { return ip4pkt()[20:] }},
@@ -501,15 +505,19 @@ func c01ViewSweep(c *core.Ctx, spec viewSpec, k int) {
 					offs = append(offs, o)
 				}
 			}
+			sigma := sigma7
+			if vs := viewSigma[spec.name]; vs != nil {
+				sigma = vs
+			}
 			total := 1
 			for range offs {
-				total *= len(sigma7)
+				total *= len(sigma)
 			}
 			for n := 0; n < total; n++ {
 				x := n
 				for _, o := range offs {
-					view[o] = sigma7[x%len(sigma7)]
-					x /= len(sigma7)
+					view[o] = sigma[x%len(sigma)]
+					x /= len(sigma)
 				}
 				c.Count("evaluations", 1)
 				c.Count("view_instances", 1)
